@@ -1,24 +1,36 @@
 """C06 - translating between HTTP versions preserves message semantics (field tables of the converters).
 
+The converters are *interpreted* (mitmlint.pyint over their ASTs, nothing from the repository is imported or run) on a finite
+domain of abstract messages - HTTP version x authority set/empty x Host header present/absent x several Cookie headers x
+normalize_outbound_headers - and the *results* (the emitted header block, the message handed to http1.assemble_*_head, the
+state of the flow's own message afterwards, what hyper-h2's normaliser was asked to do) are compared with the message that went
+in.  Local names, branch polarity, temporaries, extracted / renamed helpers, added logging and assertions do not matter: only
+what comes out does.
+
 Decided:
-  R06.1 pseudo-header tables. format_h2_request_headers (path enumeration over authority? / h2-or-h3? / Host present?):
-        emits :method, :scheme, :path exactly once each from the same-named request.data field, :authority exactly once
-        from request.data.authority iff authority is set, pseudo-headers first in the result; parse_h2_request_headers
-        pops exactly {:method,:scheme,:path (required), :authority (optional, default b"")}, raises on leftovers, and
-        split_pseudo_headers raises on a duplicate pseudo-header; at both call sites (HTTP/2, HTTP/3) the parsed values
-        reach http.Request(...) under the same-named keyword (origin table).  Response: (:status, status_code) is the
-        first emitted field and parse_h2_response_headers' :status reaches http.Response(status_code=...).
-  R06.2 HTTP/2|3 -> HTTP/1 conversion. Http1Client.send(RequestHeaders): for an h2/h3 request a COPY is modified
-        (event.request untouched), http_version := HTTP/1.1, Host inserted from authority iff there is no Host header
-        and authority is non-empty, authority cleared, several Cookie headers joined with "; "; an HTTP/1 request is
-        sent unmodified.  Http1Server.send(ResponseHeaders): copy, HTTP/1.1 (a made-up reason phrase is allowed, not demanded).
+  R06.1 pseudo-header tables. format_h2_request_headers emits :method, :scheme, :path exactly once each with the value of the
+        same-named request.data field, :authority exactly once with request.data.authority iff authority is set, pseudo-headers
+        before all regular fields, regular fields complete and in order (names compared case-insensitively);
+        format_h2_response_headers emits (:status, decimal status_code) first, no other pseudo-header, then the response's fields;
+        parse_h2_request_headers consumes exactly {:method,:scheme,:path (required), :authority (optional, default b"")} and
+        parse_h2_response_headers exactly {:status}: a missing required, an unknown or a repeated pseudo-header -> ValueError,
+        the regular fields are returned complete and in order; at the call sites (HTTP/2, HTTP/3) every parsed value reaches
+        http.Request(...) / http.Response(...) under the same-named parameter (dataflow from the parser's result to the
+        constructor, the position -> pseudo-header table is extracted by interpreting the parser) with the right http_version.
+  R06.2 HTTP/2|3 -> HTTP/1 conversion. Http1Client.send(RequestHeaders): for an h2/h3 request the message whose head is sent has
+        http_version HTTP/1.1, an empty authority, a Host header taken from the authority iff there was no Host header and the
+        authority is non-empty, several Cookie headers joined with "; ", every other field and header unchanged - and the flow's
+        own request (event.request) is exactly as before; an HTTP/1 request is sent unmodified.
+        Http1Server.send(ResponseHeaders): same with HTTP/1.1 (a made-up reason phrase is allowed, not demanded).
   R06.3 inbound validation / HTTP/1 -> HTTP/2: Http2Connection.__init__ takes h2_conf.validate_inbound_headers from
-        context.options.validate_inbound_headers before the h2 connection is created; both formatters pass HTTP/1
-        header blocks through normalize_h1_headers; for an HTTP/1 request the Host header becomes :authority only when
-        authority is empty, and it is popped from a copy.
+        context.options.validate_inbound_headers before the h2 connection is created from that configuration and nothing else
+        in _http2.py writes another value; both formatters hand an HTTP/1 header block (complete, in order) to hyper-h2's
+        normalize_outbound_headers with the right client/response flags and emit its result, and never do that for an h2/h3
+        block; for an HTTP/1 request the Host header becomes :authority only when authority is empty, and the flow's own
+        headers are untouched by that.
   R06.4 one HTTP/2|3 message -> one HTTP/1 head: Http1Client.send(RequestHeaders) / Http1Server.send(ResponseHeaders)
         yield exactly one SendData whose bytes are assemble_request_head / assemble_response_head of the (converted)
-        message, on every path.
+        message (Log commands are transparent), in every scenario.
 NOT decided: what hyper-h2 / aioquic accept as header blocks (CR/LF/NUL filtering is library code controlled by the
 option checked in R06.3), body and trailer bytes (relayed by C07's rules), HTTP/1 framing decisions (C01).
 """
@@ -26,43 +38,395 @@ option checked in R06.3), body and trailer bytes (relayed by C07's rules), HTTP/
 from __future__ import annotations
 
 import ast
+import ipaddress as _ipaddress
+import re as _re
+import time as _time
+import urllib.parse as _urllib_parse  # noqa: F401  (makes urllib.parse available on the trusted urllib module)
+from collections import namedtuple
+from types import SimpleNamespace
+
+import urllib as _urllib
 
 from ..core import AnalysisError
 from ..core import norm
 from ..model import attr_chain
-from ..model import eval_order
 from ..model import last_attr
-from ..model import walk_in_order
-from ..paths import C
+from ..pyint import Gen
+from ..pyint import Interp
+from ..pyint import Raised
+from ..pyint import Rec
+from ..pyint import _Return
 from ..selftest import Mutant
 from ._helpers_A import ASpec
-from ._helpers_A import compare_pair
-from ._helpers_A import isinstance_of
-from ._helpers_A import method_call_on
 from ._helpers_A import params_of
-from ._helpers_A import proj
 from ._helpers_A import run_block
 from ._helpers_A import show
-from ._helpers_A import truthiness_atom
 
 PROP = "C06"
 REG = {
     "strength": "partial",
-    "technique": "path enumeration over the converters with named condition atoms (field tables), origin tables across call sites, option dataflow",
+    "technique": "abstract interpretation of the converters' ASTs (pyint) over a finite message domain with trusted models of http.Headers / "
+    "hyper-h2's normaliser; the outputs are compared with the inputs (field tables); dataflow from parser result to constructor at the call sites; option dataflow",
     "claim": "h2/h3 pseudo-headers map one-to-one to request.data fields in both directions (no duplicates, no leftovers, same-named constructor "
-    "keywords at both call sites); the HTTP/1 down-conversion works on a copy, sets HTTP/1.1, inserts Host from authority only when missing, joins "
-    "Cookie headers with '; ' and emits exactly one head; inbound header validation follows the option; HTTP/1 header blocks are normalised for HTTP/2.",
-    "note": "hyper-h2 / aioquic header validation and http1.assemble_* are trusted.",
+    "parameters at both call sites); the HTTP/1 down-conversion leaves the flow's message untouched, sets HTTP/1.1, inserts Host from authority only when "
+    "missing, joins Cookie headers with '; ' and emits exactly one head; inbound header validation follows the option; HTTP/1 header blocks are normalised for HTTP/2.",
+    "note": "hyper-h2 / aioquic header validation, http1.assemble_*, Message.copy() and the model of http.Headers are trusted.",
 }
 
 H1 = "mitmproxy/proxy/layers/http/_http1.py"
 H2 = "mitmproxy/proxy/layers/http/_http2.py"
 H3 = "mitmproxy/proxy/layers/http/_http3.py"
-REQ_PSEUDO = {b":method": "method", b":scheme": "scheme", b":path": "path", b":authority": "authority"}
+HTTP = "mitmproxy/http.py"
+HTTP1_PKG = ("mitmproxy/net/http/http1/__init__.py", "mitmproxy/net/http/http1/assemble.py")
 
 
-def _bytes_const(e):
-    return e.value if isinstance(e, ast.Constant) and isinstance(e.value, bytes) else None
+# ---------------------------------------------------------------------------------------------------
+# trusted models (plain Python; they stand in for library / data-structure code that is not the subject of C06)
+
+
+def _ab(x):
+    """mitmproxy's always_bytes(x, 'utf-8', 'surrogateescape') as http.Headers applies it to names and values."""
+    if isinstance(x, str):
+        return x.encode("utf-8", "surrogateescape")
+    if isinstance(x, (bytes, bytearray)):
+        return bytes(x)
+    raise TypeError(f"header names and values must be str or bytes, not {type(x).__name__}")
+
+
+def _nat(x):
+    return x.decode("utf-8", "surrogateescape") if isinstance(x, bytes) else x
+
+
+class _Headers:
+    """Model of mitmproxy.http.Headers (coretypes.multidict.MultiDict with case-insensitive keys): ``fields`` is a tuple of
+    (bytes, bytes); str keys / values are encoded; reads fold with ', ' and return str; set_all replaces in place."""
+
+    def __init__(self, fields=(), **headers):
+        self.fields = tuple(tuple(i) for i in fields)
+        for k, v in self.fields:
+            if not isinstance(k, bytes) or not isinstance(v, bytes):
+                raise TypeError("Header fields must be bytes.")
+        for name, value in headers.items():
+            self[_ab(name).replace(b"_", b"-")] = _ab(value)
+
+    def _find(self, key):
+        k = _ab(key).lower()
+        return [v for n, v in self.fields if n.lower() == k]
+
+    def __contains__(self, key):
+        return bool(self._find(key))
+
+    def __getitem__(self, key):
+        vals = self.get_all(key)
+        if not vals:
+            raise KeyError(key)
+        return ", ".join(vals)
+
+    def __setitem__(self, key, value):
+        self.set_all(key, [value])
+
+    def __delitem__(self, key):
+        if key not in self:
+            raise KeyError(key)
+        k = _ab(key).lower()
+        self.fields = tuple(f for f in self.fields if f[0].lower() != k)
+
+    def __iter__(self):
+        seen = set()
+        for n, _ in self.fields:
+            if n.lower() not in seen:
+                seen.add(n.lower())
+                yield _nat(n)
+
+    def __len__(self):
+        return len({n.lower() for n, _ in self.fields})
+
+    def __eq__(self, other):
+        return isinstance(other, _Headers) and self.fields == other.fields
+
+    __hash__ = None
+
+    def __bytes__(self):
+        return (b"\r\n".join(b": ".join(f) for f in self.fields) + b"\r\n") if self.fields else b""
+
+    def __repr__(self):
+        return f"Headers{list(self.fields)!r}"
+
+    def get(self, key, default=None):
+        try:
+            return self[key]
+        except KeyError:
+            return default
+
+    def get_all(self, name):
+        return [_nat(v) for v in self._find(name)]
+
+    def set_all(self, name, values):
+        name = _ab(name)
+        values = [_ab(x) for x in values]
+        out = []
+        for f in self.fields:
+            if f[0].lower() == name.lower():
+                if values:
+                    out.append((f[0], values.pop(0)))
+            else:
+                out.append(f)
+        while values:
+            out.append((name, values.pop(0)))
+        self.fields = tuple(out)
+
+    def add(self, key, value):
+        self.insert(len(self.fields), key, value)
+
+    def insert(self, index, key, value):
+        self.fields = self.fields[:index] + ((_ab(key), _ab(value)),) + self.fields[index:]
+
+    def pop(self, key, *default):
+        try:
+            v = self[key]
+        except KeyError:
+            if default:
+                return default[0]
+            raise
+        del self[key]
+        return v
+
+    def setdefault(self, key, default=None):
+        if key in self:
+            return self[key]
+        self[key] = default
+        return default
+
+    def update(self, other=(), **kw):
+        for k, v in list(other.items()) if hasattr(other, "items") else list(other):
+            self[k] = v
+        for k, v in kw.items():
+            self[k] = v
+
+    def clear(self):
+        self.fields = ()
+
+    def keys(self, multi=False):
+        return [k for k, _ in self.items(multi)]
+
+    def values(self, multi=False):
+        return [v for _, v in self.items(multi)]
+
+    def items(self, multi=False):
+        if multi:
+            return [(_nat(k), _nat(v)) for k, v in self.fields]
+        return [(k, self[k]) for k in self]
+
+    def copy(self):
+        return _Headers(self.fields)
+
+
+_Flags = namedtuple("HeaderValidationFlags", "is_client is_trailer is_response_header is_push_promise")
+_CONNECTION_HEADERS = frozenset([b"connection", b"proxy-connection", b"keep-alive", b"transfer-encoding", b"upgrade"])
+
+
+def _h2_normalised(fields):
+    """What h2.utilities.normalize_outbound_headers does to a header block, as far as C06 is concerned: names lower-cased,
+    connection-specific fields dropped, values and order kept."""
+    return [(n.lower(), v) for n, v in fields if n.lower() not in _CONNECTION_HEADERS]
+
+
+class _H2:
+    """Summary of the parts of hyper-h2 the converters call; records what the normaliser was asked to do."""
+
+    def __init__(self):
+        self.normalized = []  # [(input fields, flags)]
+
+        def normalize_outbound_headers(headers, hdr_validation_flags=None, *a, **k):
+            hs = tuple(tuple(h) for h in headers)
+            self.normalized.append((hs, hdr_validation_flags))
+            return iter(_h2_normalised(hs))  # an iterator, like the library (callers must materialise it)
+
+        self.utilities = SimpleNamespace(normalize_outbound_headers=normalize_outbound_headers, HeaderValidationFlags=_Flags)
+
+
+class _NullLogger:
+    def _noop(self, *a, **k):
+        return None
+
+    debug = info = warning = warn = error = critical = exception = log = _noop
+
+    def isEnabledFor(self, *a):
+        return False
+
+    def getChild(self, *a):
+        return self
+
+
+_NULL_LOGGER = _NullLogger()
+_LOGGING = SimpleNamespace(DEBUG=10, INFO=20, WARNING=30, WARN=30, ERROR=40, CRITICAL=50, NOTSET=0, getLogger=lambda *a: _NULL_LOGGER,
+                           debug=_NULL_LOGGER._noop, info=_NULL_LOGGER._noop, warning=_NULL_LOGGER._noop, error=_NULL_LOGGER._noop)
+
+
+class _Done:
+    """A finished call of a repository generator function: the values it yielded and its return value."""
+
+    def __init__(self, yields, value):
+        self.yields, self.value = yields, value
+
+
+class _Head:
+    """Result of the (trusted) http1.assemble_*_head: which message object it was given and that message's state at that moment."""
+
+    def __init__(self, msg):
+        self.msg, self.state = msg, _state(msg)
+
+
+class _Sem(Interp):
+    """pyint with (a) generator calls executed eagerly - side effects on shared lists / messages are kept, ``x = yield from g()``
+    gets g's return value; commands are collected, ``yield`` evaluates to None -, (b) item writes and iteration on the Headers
+    model, (c) a null ``logging``, ``__name__``."""
+
+    def __init__(self, model, lib=None):
+        super().__init__(model, trusted_modules={"h2": lib or _H2(), "logging": _LOGGING, "time": _time, "re": _re, "urllib": _urllib, "ipaddress": _ipaddress})
+        self._collect: list[list] = []
+        for rel in (HTTP, H1, H2, H3):
+            self.overrides[(rel, "Headers")] = _Headers
+        for rel in (H1,) + HTTP1_PKG:
+            self.overrides[(rel, "assemble_request_head")] = _Head
+            self.overrides[(rel, "assemble_response_head")] = _Head
+
+    def call_func(self, f, args, kwargs, depth):
+        res = super().call_func(f, args, kwargs, depth)
+        if not isinstance(res, Gen):
+            return res
+        frame: list = []
+        self._collect.append(frame)
+        try:
+            try:
+                self.block(res.node.body, res.env, res.f.mod, res.depth)
+                value = None
+            except _Return as r:
+                value = r.value
+        finally:
+            self._collect.pop()
+        return _Done(frame, value)
+
+    def do_yield(self, value):
+        if not self._collect:
+            raise AnalysisError("C06: yield outside a generator call")
+        self._collect[-1].append(value)
+        return None
+
+    def ev(self, e, env, mod, depth):
+        if isinstance(e, ast.YieldFrom):
+            v = self.ev(e.value, env, mod, depth)
+            for x in self.iterate(v, e.value):
+                self.do_yield(x)
+            return v.value if isinstance(v, _Done) else None
+        return super().ev(e, env, mod, depth)
+
+    def iterate(self, v, node):
+        if isinstance(v, _Done):
+            return list(v.yields)
+        if isinstance(v, _Headers):
+            return list(v)
+        return super().iterate(v, node)
+
+    def truthy(self, v):
+        if isinstance(v, (_Done, _Head)):
+            return True
+        return super().truthy(v)
+
+    def assign(self, target, value, env, mod, depth):
+        if isinstance(target, ast.Subscript):
+            base = self.ev(target.value, env, mod, depth)
+            if isinstance(base, _Headers):
+                key = self.ev(target.slice, env, mod, depth)
+                try:
+                    base[key] = value
+                except (TypeError, KeyError) as ex:
+                    raise Raised(type(ex).__name__)
+                return
+        super().assign(target, value, env, mod, depth)
+
+    def name(self, ident, env, mod, depth, node):
+        if ident == "__name__" and ident not in env:
+            return mod.rel[:-3].replace("/", ".")
+        return super().name(ident, env, mod, depth, node)
+
+    def native_call(self, f, args, kwargs, where):
+        if f is _Head or isinstance(getattr(f, "__self__", None), _NullLogger) or getattr(f, "_abstract_ok", False):
+            return f(*args, **kwargs)
+        return super().native_call(f, args, kwargs, where)
+
+
+# ---------------------------------------------------------------------------------------------------
+# the abstract message domain
+
+METHOD, SCHEME, PATH, AUTHORITY, HOSTV = b"POST", b"https", b"/p/a;x?q=1", b"auth.example:8443", b"host.example"
+H1_VERSIONS = (b"HTTP/1.1", b"HTTP/1.0")
+MUX_VERSIONS = (b"HTTP/2.0", b"HTTP/3")
+STATUS = 404
+
+
+def _data_of(msg):
+    return {k: v for k, v in vars(msg.data).items() if not k.startswith("_")}
+
+
+def _state(msg):
+    """Comparable snapshot of a message: its data fields (headers / trailers as field tuples)."""
+    return tuple(sorted((k, ("Headers", v.fields) if isinstance(v, _Headers) else v) for k, v in _data_of(msg).items()))
+
+
+def _message(world, kind, tag, data):
+    """A message record bound to the repository's http.Request / http.Response (their properties are interpreted from the
+    source); ``copy()`` is the trusted deep copy of Message and registers the copy in ``world``."""
+    d = Rec(kind + "Data", _bases=("MessageData",), _name=tag + ".data", **data)
+    msg = Rec(kind, _bases=("Message",), _impl=(HTTP, kind), _name=tag, data=d)
+
+    def copy():
+        dd = _data_of(msg)
+        for k, v in dd.items():
+            if isinstance(v, _Headers):
+                dd[k] = v.copy()
+        return _message(world, kind, f"copy#{len(world)} of {tag}", dd)
+
+    copy._abstract_ok = True
+    object.__setattr__(msg, "copy", copy)
+    world.append(msg)
+    return msg
+
+
+def _request(world, version, authority, fields):
+    return _message(world, "Request", "event.request", dict(host="h.example", port=8443, method=METHOD, scheme=SCHEME, authority=authority, path=PATH, http_version=version,
+                                                              headers=_Headers(fields), content=None, trailers=None, timestamp_start=1.0, timestamp_end=None))
+
+
+def _response(world, version, fields):
+    return _message(world, "Response", "event.response", dict(http_version=version, status_code=STATUS, reason=b"" if version in MUX_VERSIONS else b"Not Found", headers=_Headers(fields),
+                                                                content=None, trailers=None, timestamp_start=1.0, timestamp_end=None))
+
+
+def _context(normalize=False):
+    return Rec("Context", options=Rec("Options", normalize_outbound_headers=normalize, validate_inbound_headers=True, http2=True, http3=True))
+
+
+def _fmt(fields):
+    return "[" + ", ".join(f"{_nat(_ab(n))}: {_nat(_ab(v))}" if isinstance(n, (str, bytes)) and isinstance(v, (str, bytes)) else repr((n, v)) for n, v in fields) + "]"
+
+
+def _header_block(value):
+    """The header list a formatter returned, or None when it is not a list of (name, value) pairs."""
+    if isinstance(value, _Done):
+        value = value.value
+    if not isinstance(value, (list, tuple)):
+        return None
+    out = []
+    for item in value:
+        if not (isinstance(item, (tuple, list)) and len(item) == 2 and all(isinstance(x, (str, bytes)) for x in item)):
+            return None
+        out.append((_ab(item[0]), _ab(item[1])))
+    return out
+
+
+def _ci(fields):
+    return [(n.lower(), v) for n, v in fields]
 
 
 # ---------------------------------------------------------------------------------------------------
@@ -71,280 +435,422 @@ def _bytes_const(e):
 
 def _format_request(ctx):
     fn = ctx.func(H2, "format_h2_request_headers")
-    ps = params_of(fn)
-    ctx.require(len(ps) == 2, "format_h2_request_headers signature changed")
-    ev = ps[1]
+    ctx.require(len(params_of(fn)) == 2, "format_h2_request_headers signature changed")
     w = (H2, "format_h2_request_headers", fn)
-    rq = f"{ev}.request"
+    rows = ok_rows = 0
+    failed = set()
+    for version in H1_VERSIONS[:1] + MUX_VERSIONS:
+        h1 = version in H1_VERSIONS
+        for auth in (AUTHORITY, b""):
+            for hostin in (True, False):
+                for opt in (False, True):
+                    fields = ([(b"Host", HOSTV)] if hostin else []) + [(b"X-Custom", b"V1"), (b"cookie", b"a=1"), (b"Cookie", b"b=2")] + ([(b"Connection", b"keep-alive")] if h1 else [])
+                    lib, world = _H2(), []
+                    it = _Sem(ctx.model, lib)
+                    req = _request(world, version, auth, fields)
+                    before = _state(req)
+                    ev = Rec("RequestHeaders", _bases=("HttpEvent", "Event"), stream_id=1, request=req, end_stream=False, replay_flow=None)
+                    rows += 1
+                    ctx.cells += 1
+                    cons = f"{version.decode()} authority_set={bool(auth)} host_header={hostin} normalize_outbound_headers={opt}"
 
-    def pairs(e, st, sp):
-        """(name, source) for a 2-tuple literal (b':x', value)."""
-        if isinstance(e, ast.Tuple) and len(e.elts) == 2 and _bytes_const(e.elts[0]) is not None:
-            v = e.elts[1]
-            src = sp.v(v, st)
-            return (_bytes_const(e.elts[0]), src if isinstance(src, tuple) and src and src[0] == "hostpop" else (attr_chain(v) or norm(v)))
-        return None
-
-    def val(expr, st, sp):
-        if isinstance(expr, ast.Call):
-            f = expr.func
-            if isinstance(f, ast.Attribute) and f.attr == "pop" and len(expr.args) >= 1 and isinstance(expr.args[0], ast.Constant) and str(expr.args[0].value if not isinstance(expr.args[0].value, bytes) else expr.args[0].value.decode()).lower() == "host":
-                return ("hostpop", sp.v(f.value, st))
-            if isinstance(f, ast.Attribute) and f.attr == "copy" and not expr.args:
-                return ("copy", sp.v(f.value, st))
-            if last_attr(f) == "normalize_h1_headers":
-                return ("norm_h1",)
-            if isinstance(f, ast.Name) and f.id == "list" and len(expr.args) == 1:
-                return ("list", attr_chain(expr.args[0]) or norm(expr.args[0]))
-        if isinstance(expr, ast.List):
-            return ("pseudo_list",)
-        return None
-
-    def label(node, st, sp):
-        out = []
-        for n in eval_order(node):
-            if isinstance(n, ast.List) and any(pairs(e, st, sp) for e in n.elts):
-                for e in n.elts:
-                    p = pairs(e, st, sp)
-                    if p is None:
-                        raise AnalysisError(f"unmodelled pseudo-header list element {norm(e)}")
-                    out.append(("pseudo",) + p)
-            elif isinstance(n, ast.Call) and isinstance(n.func, ast.Attribute) and n.func.attr in ("append", "insert") and n.args and pairs(n.args[-1], st, sp):
-                if sp.v(n.func.value, st) != ("pseudo_list",) or n.func.attr != "append":
-                    raise AnalysisError(f"pseudo-header added in an unmodelled way: {norm(n)}")
-                out.append(("pseudo",) + pairs(n.args[-1], st, sp))
-            elif isinstance(n, ast.Call) and last_attr(n.func) == "normalize_h1_headers":
-                out.append(("norm_h1", norm(n.args[1]) if len(n.args) > 1 else "?"))
-            elif isinstance(n, ast.Call) and last_attr(n.func) == "normalize_h2_headers":
-                out.append(("norm_h2",))
-        if isinstance(node, ast.Return) and node.value is not None:
-            v = node.value
-            if isinstance(v, ast.BinOp) and isinstance(v.op, ast.Add):
-                out.append(("ret", sp.v(v.left, st), sp.v(v.right, st)))
-            else:
-                out.append(("ret", sp.v(v, st), None))
-        return out
-
-    def atom(expr, st, sp):
-        for chain, name in ((f"{rq}.authority", "AUTH"), (f"{rq}.data.authority", "AUTH"), (f"{rq}.is_http2", "IS2"), (f"{rq}.is_http3", "IS3")):
-            p = truthiness_atom(expr, chain)
-            if p is not None:
-                return (name, p)
-        cp = compare_pair(expr, (ast.In, ast.NotIn))
-        if cp and isinstance(cp[0], ast.Constant) and str(cp[0].value if not isinstance(cp[0].value, bytes) else cp[0].value.decode()).lower() == "host":
-            return ("HOSTIN", isinstance(cp[2], ast.In))
-        return None
-
-    n = 0
-    for AUTH in (True, False):
-        for H23 in (True, False):
-            for HOSTIN in (True, False):
-                sc = {"AUTH": AUTH, "IS2": H23, "IS3": False, "HOSTIN": HOSTIN}
-                traces, _ = run_block(fn.body, ASpec(label=label, atom=atom, scenario=sc, val=val, unroll=1), {ev: ("param", ev)})
-                ctx.paths += len(traces)
-                ctx.cells += 1
-                ctx.require(traces, "format_h2_request_headers: no path")
-                want = {(k, f"{rq}.data.{f}") for k, f in REQ_PSEUDO.items() if f != "authority"}
-                host_moved = (not AUTH) and (not H23) and HOSTIN
-                if AUTH:
-                    want.add((b":authority", f"{rq}.data.authority"))
-                cons = f"authority_set={AUTH} h2_or_h3={H23} host_header={HOSTIN}"
-                for tr, how, _ in traces:
-                    ps_ = [t[1:] for t in tr if t[0] == "pseudo"]
-                    got = {p for p in ps_ if not (isinstance(p[1], tuple) and p[1][0] == "hostpop")}
-                    hostpops = [p for p in ps_ if isinstance(p[1], tuple) and p[1][0] == "hostpop"]
-                    ok = how == "return" and got == want and len(got) == len([p for p in ps_ if p not in hostpops])
-                    why = f"pseudo-headers must be exactly {sorted((k.decode(), v) for k, v in want)} (each once), saw {[(k.decode(), v) for k, v in ps_]}"
-                    if ok:
-                        if host_moved:
-                            ok = len(hostpops) == 1 and hostpops[0][0] == b":authority" and isinstance(hostpops[0][1][1], tuple) and hostpops[0][1][1][0] == "copy"
-                            why = "for an HTTP/1 request without authority the Host header must become :authority, popped from a COPY of the headers (the flow's request must stay as received)"
-                            rule = "R06.3"
-                        else:
-                            ok = not hostpops
-                            why = "the Host header may only be moved into :authority for an HTTP/1 request whose authority is empty"
-                            rule = "R06.3"
-                    else:
-                        rule = "R06.1"
-                    if ok:
-                        rets = [t for t in tr if t[0] == "ret"]
-                        ok = len(rets) == 1 and rets[0][1] == ("pseudo_list",)
-                        why, rule = "pseudo-headers must come first in the emitted header block", "R06.1"
-                    if ok:
-                        nh1 = [t for t in tr if t[0] == "norm_h1"]
-                        ok = (not nh1) if H23 else (nh1 == [("norm_h1", "True")] and rets[0][2] == ("norm_h1",))
-                        why, rule = "an HTTP/1 header block must go through normalize_h1_headers(..., is_client=True) before it is sent as HTTP/2 (and an h2/h3 block must not)", "R06.3"
-                    if not ok:
+                    def fail(rule, why):
+                        failed.add(rule)
                         ctx.fail(rule, w, cons, why)
-                        break
-                else:
-                    n += 1
-    ctx.ok("R06.1", f"format_h2_request_headers: {n}/8 scenario rows emit exactly the expected pseudo-headers, pseudo-headers first")
-    ctx.ok("R06.3", f"format_h2_request_headers: Host -> :authority only for HTTP/1 without authority (from a copy); HTTP/1 blocks normalised ({n}/8 rows)")
+
+                    try:
+                        block = _header_block(it.call(H2, "format_h2_request_headers", _context(opt), ev))
+                    except Raised as r:
+                        fail("R06.1", f"formatting this request raises {r.name}")
+                        continue
+                    if block is None:
+                        fail("R06.1", "the formatter does not return a list of (name, value) header fields")
+                        continue
+                    k = 0
+                    while k < len(block) and block[k][0].startswith(b":"):
+                        k += 1
+                    allpseudo = [f for f in block if f[0].startswith(b":")]
+                    regular = [f for f in block if not f[0].startswith(b":")]
+                    from_host = [f for f in allpseudo if f == (b":authority", HOSTV)]
+                    base = sorted(f for f in allpseudo if f != (b":authority", HOSTV))
+                    want = sorted([(b":method", METHOD), (b":scheme", SCHEME), (b":path", PATH)] + ([(b":authority", auth)] if auth else []))
+                    moved = h1 and not auth and hostin
+                    if base != want:
+                        fail("R06.1", f"pseudo-headers must be exactly {_fmt(want)} (each once, taken from the same-named request.data field), saw {_fmt(allpseudo)}")
+                    elif len(allpseudo) != k:
+                        fail("R06.1", f"pseudo-headers must come first in the emitted header block, saw {_fmt(block)}")
+                    elif len(from_host) != (1 if moved else 0):
+                        fail("R06.3", "for an HTTP/1 request without authority the Host header must become :authority (exactly once)" if moved else
+                             f"the Host header may only be moved into :authority for an HTTP/1 request whose authority is empty, saw {_fmt(allpseudo)}")
+                    elif _state(req) != before:
+                        fail("R06.3", f"formatting must not modify the flow's request (Host has to be popped from a COPY of the headers); its headers are now {_fmt(req.data.headers.fields)}")
+                    else:
+                        src = [f for f in fields if not (moved and f[0].lower() == b"host")]
+                        if h1:
+                            calls = lib.normalized
+                            flags = calls[0][1] if calls else None
+                            if len(calls) != 1 or not (isinstance(flags, _Flags) and flags.is_client is True and flags.is_response_header is False):
+                                fail("R06.3", f"an HTTP/1 header block must go through hyper-h2's normalize_outbound_headers exactly once with client / request flags before it is sent as HTTP/2; saw {len(calls)} call(s), flags {flags}")
+                            elif [f for f in calls[0][0] if not f[0].startswith(b":")] != src:
+                                fail("R06.3", f"the header block given to the normaliser must be the request's fields {_fmt(src)}, saw {_fmt(calls[0][0])}")
+                            elif regular != _h2_normalised(src):
+                                fail("R06.3", f"the normalised header block must be what is emitted: expected {_fmt(_h2_normalised(src))}, saw {_fmt(regular)}")
+                            else:
+                                ok_rows += 1
+                        elif lib.normalized:
+                            fail("R06.3", "an HTTP/2 / HTTP/3 header block must not be passed through the HTTP/1 normalisation")
+                        elif _ci(regular) != _ci(src):
+                            fail("R06.1", f"the request's header fields must be emitted complete and in order: expected {_fmt(src)}, saw {_fmt(regular)}")
+                        else:
+                            ok_rows += 1
+    if "R06.1" not in failed:
+        ctx.ok("R06.1", f"format_h2_request_headers: {ok_rows}/{rows} scenario rows emit exactly the expected pseudo-headers, pseudo-headers first, fields complete")
+    if "R06.3" not in failed:
+        ctx.ok("R06.3", f"format_h2_request_headers: Host -> :authority only for HTTP/1 without authority (flow's headers untouched); HTTP/1 blocks normalised ({ok_rows}/{rows} rows)")
 
 
 def _format_response(ctx):
     fn = ctx.func(H2, "format_h2_response_headers")
-    ev = params_of(fn)[1]
+    ctx.require(len(params_of(fn)) == 2, "format_h2_response_headers signature changed")
     w = (H2, "format_h2_response_headers", fn)
-    lists = [n for n in walk_in_order(fn) if isinstance(n, ast.List) and n.elts and isinstance(n.elts[0], ast.Tuple) and len(n.elts[0].elts) == 2 and _bytes_const(n.elts[0].elts[0]) == b":status"]
-    ctx.require(len(lists) == 1, "format_h2_response_headers: header list starting with :status not found")
-    v = lists[0].elts[0].elts[1]
-    src = None
-    if isinstance(v, ast.BinOp) and isinstance(v.op, ast.Mod) and _bytes_const(v.left) == b"%d":
-        src = attr_chain(v.right)
-    ctx.check(src == f"{ev}.response.status_code", "R06.1", w, ":status source", f":status must be the decimal response.status_code, saw {norm(v)}", desc=f":status <- b'%d' % {ev}.response.status_code (first field)")
-    rest = lists[0].elts[1:]
-    ctx.check(len(rest) == 1 and isinstance(rest[0], ast.Starred) and attr_chain(rest[0].value) == f"{ev}.response.headers.fields", "R06.1", w, "response header fields",
-              "the response's header fields must follow :status unchanged and complete", desc="response headers: [:status, *response.headers.fields]")
-    others = [n for n in ast.walk(fn) if isinstance(n, ast.Tuple) and len(n.elts) == 2 and (_bytes_const(n.elts[0]) or b"").startswith(b":") and n is not lists[0].elts[0]]
-    ctx.check(not others, "R06.1", w, "single :status", "more than one pseudo-header is emitted for a response", desc="response: exactly one pseudo-header")
+    rows = 0
+    failed = set()
+    for version in H1_VERSIONS[:1] + MUX_VERSIONS:
+        h1 = version in H1_VERSIONS
+        for opt in (False, True):
+            fields = [(b"Content-Type", b"text/x"), (b"X-Resp", b"1"), (b"Set-Cookie", b"a=1"), (b"set-cookie", b"b=2")] + ([(b"Connection", b"close")] if h1 else [])
+            lib, world = _H2(), []
+            it = _Sem(ctx.model, lib)
+            resp = _response(world, version, fields)
+            before = _state(resp)
+            ev = Rec("ResponseHeaders", _bases=("HttpEvent", "Event"), stream_id=1, response=resp, end_stream=False)
+            rows += 1
+            ctx.cells += 1
+            cons = f"{version.decode()} normalize_outbound_headers={opt}"
 
-    def label(node, st, sp):
-        out = []
-        for n in eval_order(node):
-            if isinstance(n, ast.Call) and last_attr(n.func) == "normalize_h1_headers":
-                out.append(("norm_h1", norm(n.args[1]) if len(n.args) > 1 else "?"))
-        return out
+            def fail(rule, why):
+                failed.add(rule)
+                ctx.fail(rule, w, cons, why)
 
-    def atom(expr, st, sp):
-        for chain, name in ((f"{ev}.response.is_http2", "IS2"), (f"{ev}.response.is_http3", "IS3")):
-            p = truthiness_atom(expr, chain)
-            if p is not None:
-                return (name, p)
-        return None
-
-    for H23 in (True, False):
-        traces, _ = run_block(fn.body, ASpec(label=label, atom=atom, scenario={"IS2": False, "IS3": H23}, unroll=1), {ev: ("param", ev)})
-        ctx.paths += len(traces)
-        bad = [tr for tr, how, _ in traces if [t for t in tr if t[0] == "norm_h1"] != ([] if H23 else [("norm_h1", "False")])]
-        ctx.check(not bad, "R06.3", w, f"normalize_h1_headers for h2_or_h3={H23}", "an HTTP/1 response header block must go through normalize_h1_headers(..., is_client=False) before it is sent as HTTP/2 (and an h2/h3 block must not)",
-                  desc=f"format_h2_response_headers h2_or_h3={H23}: {'no normalisation' if H23 else 'normalize_h1_headers(headers, False)'}")
+            try:
+                block = _header_block(it.call(H2, "format_h2_response_headers", _context(opt), ev))
+            except Raised as r:
+                fail("R06.1", f"formatting this response raises {r.name}")
+                continue
+            if block is None:
+                fail("R06.1", "the formatter does not return a list of (name, value) header fields")
+                continue
+            pseudo = [f for f in block if f[0].startswith(b":")]
+            regular = [f for f in block if not f[0].startswith(b":")]
+            if not block or block[0] != (b":status", b"%d" % STATUS):
+                fail("R06.1", f":status must be the first emitted field and carry the decimal response.status_code, saw {_fmt(block[:2])}")
+            elif len(pseudo) != 1:
+                fail("R06.1", f"more than one pseudo-header is emitted for a response: {_fmt(pseudo)}")
+            elif _state(resp) != before:
+                fail("R06.3", "formatting must not modify the flow's response")
+            elif h1:
+                calls = lib.normalized
+                flags = calls[0][1] if calls else None
+                if len(calls) != 1 or not (isinstance(flags, _Flags) and flags.is_client is False and flags.is_response_header is True):
+                    fail("R06.3", f"an HTTP/1 response header block must go through hyper-h2's normalize_outbound_headers exactly once with server / response flags before it is sent as HTTP/2; saw {len(calls)} call(s), flags {flags}")
+                elif [f for f in calls[0][0] if not f[0].startswith(b":")] != fields:
+                    fail("R06.3", f"the header block given to the normaliser must be the response's fields {_fmt(fields)}, saw {_fmt(calls[0][0])}")
+                elif regular != _h2_normalised(fields):
+                    fail("R06.3", f"the normalised header block must be what is emitted: expected {_fmt(_h2_normalised(fields))}, saw {_fmt(regular)}")
+            elif lib.normalized:
+                fail("R06.3", "an HTTP/2 / HTTP/3 header block must not be passed through the HTTP/1 normalisation")
+            elif _ci(regular) != _ci(fields):
+                fail("R06.1", f"the response's header fields must follow :status unchanged and complete: expected {_fmt(fields)}, saw {_fmt(regular)}")
+    if "R06.1" not in failed:
+        ctx.ok("R06.1", f"format_h2_response_headers: {rows} rows: [:status <- status_code, *response.headers.fields], exactly one pseudo-header")
+    if "R06.3" not in failed:
+        ctx.ok("R06.3", f"format_h2_response_headers: HTTP/1 blocks go through normalize_outbound_headers(server flags), h2/h3 blocks do not ({rows} rows)")
 
 
 # ---------------------------------------------------------------------------------------------------
 # R06.1 parse side + call sites
 
+REGULAR = [(b"x-h", b"1"), (b"cookie", b"a=1"), (b"cookie", b"b=2"), (b"accept", b"*/*")]
+REQ_PSEUDO = [(b":method", METHOD), (b":scheme", SCHEME), (b":path", PATH), (b":authority", AUTHORITY)]
+REQ_FIELD = {b":method": "method", b":scheme": "scheme", b":path": "path", b":authority": "authority"}
 
-def _origin_table(fn, popvar_chain="pseudo_headers"):
-    """local name -> pseudo-header bytes it was popped from (through int(...) for :status); (pops, defaults)."""
-    origin, defaults = {}, {}
-    for n in ast.walk(fn):
-        tgt = val = None
-        if isinstance(n, ast.Assign) and len(n.targets) == 1:
-            tgt, val = n.targets[0], n.value
-        elif isinstance(n, ast.AnnAssign) and n.value is not None:
-            tgt, val = n.target, n.value
-        if tgt is None or not isinstance(tgt, ast.Name):
-            continue
-        v = val
-        if isinstance(v, ast.Call) and isinstance(v.func, ast.Name) and v.func.id == "int" and len(v.args) == 1:
-            v = v.args[0]
-        if isinstance(v, ast.Call) and isinstance(v.func, ast.Attribute) and v.func.attr == "pop" and attr_chain(v.func.value) == popvar_chain and v.args and _bytes_const(v.args[0]) is not None:
-            k = _bytes_const(v.args[0])
-            origin[tgt.id] = k
-            defaults[k] = v.args[1] if len(v.args) > 1 else None
-    return origin, defaults
+
+def _run_parser(ctx, qual, block):
+    it = _Sem(ctx.model)
+    try:
+        return "ok", it.call(H2, qual, list(block))
+    except Raised as r:
+        return "raise", r.name
+
+
+def _roles(result, sentinels):
+    """position -> what it carries, for the tuple a parser returned: a pseudo-header name, 'headers' or None."""
+    if not isinstance(result, (tuple, list)):
+        return None
+    out = []
+    for v in result:
+        role = None
+        if isinstance(v, _Headers):
+            role = "headers" if list(v.fields) == REGULAR else "headers?"
+        else:
+            for name, val in sentinels:
+                if type(v) is type(val) and v == val:
+                    role = name
+        out.append(role)
+    return out
 
 
 def _parse_side(ctx):
-    # split_pseudo_headers: duplicate -> ValueError
-    sp_fn = ctx.func(H2, "split_pseudo_headers")
-    w = (H2, "split_pseudo_headers", sp_fn)
-    loops = [l for l in walk_in_order(sp_fn) if isinstance(l, ast.For)]
-    ctx.require(len(loops) == 1 and isinstance(loops[0].target, ast.Tuple) and len(loops[0].target.elts) == 2, "split_pseudo_headers: header loop not found")
-    hname = loops[0].target.elts[0].id
+    for qual, pseudo, required, what in (("parse_h2_request_headers", REQ_PSEUDO, (b":method", b":scheme", b":path"), "request"),
+                                         ("parse_h2_response_headers", [(b":status", b"%d" % STATUS)], (b":status",), "response")):
+        fn = ctx.func(H2, qual)
+        ctx.func(H2, "split_pseudo_headers")
+        w = (H2, qual, fn)
+        sentinels = pseudo if what == "request" else [(b":status", STATUS)]
+        # well-formed blocks (two orders of the pseudo-headers)
+        roles = None
+        good = True
+        for order in (pseudo, list(reversed(pseudo))):
+            how, res = _run_parser(ctx, qual, order + REGULAR)
+            ctx.cells += 1
+            r = _roles(res, sentinels) if how == "ok" else None
+            if r is None or sorted((x for x in r if x), key=repr) != sorted([n for n, _ in pseudo] + ["headers"], key=repr) or (roles is not None and r != roles):
+                good = False
+                ctx.fail("R06.1", w, "popped pseudo-headers", f"a well-formed {what} header block {_fmt(order + REGULAR)} must be parsed into each of {[n.decode() for n, _ in pseudo]} exactly once plus the "
+                         f"regular fields complete and in order; saw {('raises ' + res) if how == 'raise' else r}")
+                break
+            roles = r
+        if not good:
+            continue
+        ctx.ok("R06.1", f"{qual} takes {' '.join(n.decode() for n, _ in pseudo)} out of the block and returns the regular fields complete")
+        # required / optional
+        bad = []
+        for name, _ in pseudo:
+            how, res = _run_parser(ctx, qual, [f for f in pseudo if f[0] != name] + REGULAR)
+            ctx.cells += 1
+            if name in required:
+                if (how, res) != ("raise", "ValueError"):
+                    bad.append(f"without {name.decode()}: {'accepted' if how == 'ok' else 'raises ' + res} (must raise ValueError)")
+            else:
+                got = res[roles.index(name)] if how == "ok" and isinstance(res, (tuple, list)) and len(res) == len(roles) else None
+                if how != "ok" or got != b"":
+                    bad.append(f"without {name.decode()}: {'raises ' + str(res) if how != 'ok' else 'yields ' + repr(got)} (must be accepted with the value b\"\")")
+        ctx.check(not bad, "R06.1", w, "required / optional pseudo-headers", f"{', '.join(n.decode() for n in required)} must be required" + (" and :authority optional with default b\"\"" if what == "request" else "") + ": " + "; ".join(bad),
+                  desc=f"{qual}: {'/'.join(n.decode() for n in required)} required" + (", :authority optional (b\"\")" if what == "request" else ""))
+        # leftovers
+        how, res = _run_parser(ctx, qual, pseudo + [(b":unknown", b"x")] + REGULAR)
+        ctx.cells += 1
+        ctx.check((how, res) == ("raise", "ValueError"), "R06.1", w, "unknown pseudo-headers rejected",
+                  f"a {what} header block with additional pseudo-headers is {'accepted and the extra fields silently dropped' if how == 'ok' else 'answered with ' + str(res) + ' instead of ValueError'}",
+                  desc=f"{qual}: leftover pseudo-headers -> ValueError")
+        # duplicates
+        bad = []
+        for name, val in pseudo:
+            for dup in (val, b"other"):
+                for at_end in (True, False):
+                    block = (pseudo + [(name, dup)]) if at_end else ([(name, dup)] + pseudo)
+                    how, res = _run_parser(ctx, qual, block + REGULAR)
+                    ctx.cells += 1
+                    if (how, res) != ("raise", "ValueError"):
+                        bad.append(f"{_fmt(block)}: {'accepted' if how == 'ok' else 'raises ' + str(res)}")
+        ctx.check(not bad, "R06.1", w, "duplicate pseudo-header",
+                  "a repeated pseudo-header (e.g. two :path) is accepted - the HTTP/1 request built from it differs from what the HTTP/2 peer and other parsers see: " + "; ".join(bad[:2]),
+                  desc=f"{qual}: duplicate pseudo-header -> ValueError")
+        if what == "request":
+            for rel, cq, ver in ((H2, "Http2Server.handle_h2_event", b"HTTP/2.0"), (H3, "Http3Server.parse_headers", b"HTTP/3")):
+                _call_site(ctx, rel, cq, fn, roles, "Request", {f: k for k, f in REQ_FIELD.items()}, ver)
+        else:
+            for rel, cq, ver in ((H2, "Http2Client.handle_h2_event", b"HTTP/2.0"), (H3, "Http3Client.parse_headers", b"HTTP/3")):
+                _call_site(ctx, rel, cq, fn, roles, "Response", {"status_code": b":status"}, ver)
 
-    def atom(expr, st, sp):
-        cp = compare_pair(expr, (ast.In, ast.NotIn))
-        if cp and isinstance(cp[0], ast.Name) and cp[0].id == hname and isinstance(cp[1], ast.Name):
-            return ("DUP", isinstance(cp[2], ast.In))
-        if isinstance(expr, ast.Call) and isinstance(expr.func, ast.Attribute) and expr.func.attr == "startswith" and isinstance(expr.func.value, ast.Name) and expr.func.value.id == hname \
-                and expr.args and _bytes_const(expr.args[0]) == b":":
-            return ("PSEUDO", True)
+
+class _Flow:
+    """Def-use view of one function: where does the value of an expression come from?  The definition that reaches a use is the
+    textually last binding of the name before the use that is not in an alternative branch (other if/elif/else arm, other match
+    case, an except handler); it is followed only when it is executed whenever the use is (its branch path is a prefix of the
+    use's path; try bodies and with blocks are transparent) - anything else is 'unknown'."""
+
+    def __init__(self, model, mod, fn, parser):
+        self.model, self.mod, self.fn, self.parser = model, mod, fn, parser
+        self.binds: dict[str, list] = {}  # name -> [(kind, value, index, statement)]
+        self._scan(fn)
+
+    def _bind(self, target, value, stmt):
+        if isinstance(target, ast.Name):
+            self.binds.setdefault(target.id, []).append(("whole", value, None, stmt))
+        elif isinstance(target, (ast.Tuple, ast.List)):
+            for i, e in enumerate(target.elts):
+                if isinstance(e, ast.Name) and not any(isinstance(x, ast.Starred) for x in target.elts):
+                    self.binds.setdefault(e.id, []).append(("elt", value, i, stmt))
+                else:
+                    self._opaque(e, stmt)
+
+    def _opaque(self, target, stmt):
+        for n in ast.walk(target):
+            if isinstance(n, ast.Name):
+                self.binds.setdefault(n.id, []).append(("opaque", None, None, stmt))
+
+    def _scan(self, node):
+        for ch in ast.iter_child_nodes(node):
+            if isinstance(ch, (ast.FunctionDef, ast.AsyncFunctionDef, ast.Lambda, ast.ClassDef)):
+                continue
+            if isinstance(ch, ast.Assign):
+                for t in ch.targets:
+                    self._bind(t, ch.value, ch)
+            elif isinstance(ch, ast.AnnAssign) and ch.value is not None:
+                self._bind(ch.target, ch.value, ch)
+            elif isinstance(ch, ast.NamedExpr):
+                self._bind(ch.target, ch.value, ch)
+            elif isinstance(ch, ast.AugAssign):
+                self._opaque(ch.target, ch)
+            elif isinstance(ch, (ast.For, ast.AsyncFor, ast.comprehension)):
+                self._opaque(ch.target, ch.target)
+            elif isinstance(ch, (ast.With, ast.AsyncWith)):
+                for it in ch.items:
+                    if it.optional_vars is not None:
+                        self._opaque(it.optional_vars, it.optional_vars)
+            elif isinstance(ch, ast.ExceptHandler) and ch.name:
+                self.binds.setdefault(ch.name, []).append(("opaque", None, None, ch))
+            elif isinstance(ch, (ast.MatchAs, ast.MatchStar)) and ch.name:
+                self.binds.setdefault(ch.name, []).append(("opaque", None, None, ch))
+            self._scan(ch)
+
+    def _path(self, node):
+        """[(compound statement, arm)] from the function down to ``node``: the branches that must be taken to get there."""
+        out = []
+        child, p = node, getattr(node, "_parent", None)
+        while p is not None and child is not self.fn:
+            arm = None
+            if isinstance(p, ast.If):
+                arm = "body" if any(child is x for x in p.body) else "orelse" if any(child is x for x in p.orelse) else None
+            elif isinstance(p, (ast.For, ast.AsyncFor, ast.While)):
+                arm = "body" if any(child is x for x in p.body) else "orelse" if any(child is x for x in p.orelse) else None
+            elif isinstance(p, ast.ExceptHandler):
+                arm = "handler"
+                out.append((id(p), arm))
+                arm = None
+            elif isinstance(p, ast.match_case):
+                out.append((id(getattr(p, "_parent", p)), f"case{id(p)}"))
+            elif isinstance(p, ast.IfExp):
+                arm = "body" if child is p.body else "orelse" if child is p.orelse else None
+            if arm is not None:
+                out.append((id(p), arm))
+            child, p = p, getattr(p, "_parent", None)
+        return out[::-1]
+
+    def reaching(self, name_node):
+        """The binding of a name that reaches this use, or None when that cannot be told."""
+        bs = self.binds.get(name_node.id, [])
+        if not bs:
+            return None
+        upath = self._path(name_node)
+        udict = dict(upath)
+        upos = (name_node.lineno, name_node.col_offset)
+        cands = []
+        for b in bs:
+            st = b[3]
+            bpath = self._path(st)
+            if any(c in udict and udict[c] != arm for c, arm in bpath):
+                continue  # in an alternative branch
+            end = (getattr(st, "end_lineno", st.lineno), getattr(st, "end_col_offset", 0))
+            if end > upos:
+                loops = {id(x) for x in self._ancestors(name_node) if isinstance(x, (ast.For, ast.AsyncFor, ast.While))}
+                if any(id(x) in loops for x in self._ancestors(st)):
+                    return None  # a later binding in the same loop reaches the use on the next iteration
+                continue
+            cands.append((end, b, bpath))
+        if not cands:
+            return None
+        end, b, bpath = max(cands, key=lambda c: c[0])
+        if bpath != upath[: len(bpath)]:
+            return None  # conditional binding: does not dominate the use
+        return b
+
+    def _ancestors(self, node):
+        p = getattr(node, "_parent", None)
+        while p is not None and p is not self.fn:
+            yield p
+            p = getattr(p, "_parent", None)
+
+    def is_parser_call(self, e):
+        if not isinstance(e, ast.Call):
+            return False
+        r = self.model.resolve_name(self.mod, e.func)
+        return (r is not None and r[1] is self.parser) or (r is None and last_attr(e.func) == self.parser.name)
+
+    def origin(self, e, depth=0):
+        """('result', None) the parser's whole result | ('result', i) its i-th element | None."""
+        if depth > 8:
+            return None
+        if isinstance(e, (ast.Await, ast.YieldFrom)):
+            e = e.value
+        if self.is_parser_call(e):
+            return ("result", None)
+        if isinstance(e, ast.Name):
+            b = self.reaching(e)
+            if b is None or b[0] == "opaque":
+                return None
+            o = self.origin(b[1], depth + 1)
+            if b[0] == "whole":
+                return o
+            return ("result", b[2]) if o == ("result", None) else None
+        if isinstance(e, ast.Subscript) and isinstance(e.slice, ast.Constant) and isinstance(e.slice.value, int) and e.slice.value >= 0:
+            return ("result", e.slice.value) if self.origin(e.value, depth + 1) == ("result", None) else None
         return None
 
-    def label(node, st, sp):
-        if isinstance(node, ast.Assign) and isinstance(node.targets[0], ast.Subscript) and isinstance(node.targets[0].slice, ast.Name) and node.targets[0].slice.id == hname:
-            return [("store",)]
-        return []
-
-    traces, _ = run_block(loops[0].body, ASpec(label=label, atom=atom, scenario={"PSEUDO": True, "DUP": True}, unroll=1))
-    ctx.paths += len(traces)
-    ctx.check(traces and all(how == "raise:ValueError" and not tr_has(tr, "store") for tr, how, _ in traces), "R06.1", w, "duplicate pseudo-header",
-              "a repeated pseudo-header (e.g. two :path) is accepted - the HTTP/1 request built from it differs from what the HTTP/2 peer and other parsers see",
-              desc="split_pseudo_headers: duplicate pseudo-header -> ValueError")
-    traces, _ = run_block(loops[0].body, ASpec(label=label, atom=atom, scenario={"PSEUDO": True, "DUP": False}, unroll=1))
-    ctx.require(traces and all(tr_has(tr, "store") for tr, how, _ in traces if how == "return"), "split_pseudo_headers: a fresh pseudo-header is not stored (shape not modelled)")
-
-    # parse_h2_request_headers
-    pr = ctx.func(H2, "parse_h2_request_headers")
-    wp = (H2, "parse_h2_request_headers", pr)
-    origin, defaults = _origin_table(pr)
-    ctx.check(set(defaults) == set(REQ_PSEUDO), "R06.1", wp, "popped pseudo-headers", f"the parser must take exactly {sorted(k.decode() for k in REQ_PSEUDO)} out of the pseudo-header dict, saw {sorted(k.decode() for k in defaults)}",
-              desc="parse_h2_request_headers pops :method :scheme :path :authority")
-    req_ok = all(defaults.get(k) is None for k in (b":method", b":scheme", b":path")) and defaults.get(b":authority") is not None and _bytes_const(defaults[b":authority"]) == b""
-    ctx.check(req_ok, "R06.1", wp, "required / optional pseudo-headers", ":method, :scheme, :path must be required (no default) and :authority optional with default b\"\"",
-              desc=":method/:scheme/:path required, :authority optional (b\"\")")
-    _leftover(ctx, pr, wp, "request")
-    rets = [n for n in ast.walk(pr) if isinstance(n, ast.Return) and isinstance(n.value, ast.Tuple)]
-    ctx.require(len(rets) == 1 and all(isinstance(e, ast.Name) for e in rets[0].value.elts), "parse_h2_request_headers: single tuple return of names expected")
-    ret_origin = [origin.get(e.id, "local:" + e.id) for e in rets[0].value.elts]
-    for rel, qual, ver in ((H2, "Http2Server.handle_h2_event", b"HTTP/2.0"), (H3, "Http3Server.parse_headers", b"HTTP/3")):
-        _call_site(ctx, rel, qual, "parse_h2_request_headers", ret_origin, "Request", {f: k for k, f in REQ_PSEUDO.items()}, ver)
-
-    ps = ctx.func(H2, "parse_h2_response_headers")
-    wps = (H2, "parse_h2_response_headers", ps)
-    origin, defaults = _origin_table(ps)
-    ctx.check(set(defaults) == {b":status"} and defaults[b":status"] is None, "R06.1", wps, "popped pseudo-headers", f"the response parser must take exactly :status (required), saw {sorted(defaults)}",
-              desc="parse_h2_response_headers pops :status (required)")
-    _leftover(ctx, ps, wps, "response")
-    rets = [n for n in ast.walk(ps) if isinstance(n, ast.Return) and isinstance(n.value, ast.Tuple)]
-    ctx.require(len(rets) == 1 and all(isinstance(e, ast.Name) for e in rets[0].value.elts), "parse_h2_response_headers: single tuple return of names expected")
-    ret_origin = [origin.get(e.id, "local:" + e.id) for e in rets[0].value.elts]
-    for rel, qual, ver in ((H2, "Http2Client.handle_h2_event", b"HTTP/2.0"), (H3, "Http3Client.parse_headers", b"HTTP/3")):
-        _call_site(ctx, rel, qual, "parse_h2_response_headers", ret_origin, "Response", {"status_code": b":status"}, ver)
+    def const(self, e, depth=0):
+        """Constant value of an expression through local temporaries and module constants, else AnalysisError."""
+        if isinstance(e, ast.Constant):
+            return e.value
+        if isinstance(e, ast.Name) and depth < 8:
+            if e.id in self.binds:
+                b = self.reaching(e)
+                if b is not None and b[0] == "whole":
+                    return self.const(b[1], depth + 1)
+            else:
+                vals = self.mod.assigns(e.id)
+                if len(vals) == 1:
+                    return self.const(vals[0], depth + 1)
+        raise AnalysisError(f"{self.fn.name}: value of {norm(e)} is not a constant the rule can follow")
 
 
-def tr_has(tr, kind):
-    return any(t[0] == kind for t in tr)
-
-
-def _leftover(ctx, fn, w, what):
-    def atom(expr, st, sp):
-        if isinstance(expr, ast.Name) and expr.id == "pseudo_headers":
-            return ("LEFT", True)
-        if isinstance(expr, ast.Call) and isinstance(expr.func, ast.Name) and expr.func.id == "len" and attr_chain(expr.args[0]) == "pseudo_headers":
-            return ("LEFT", True)
-        return None
-
-    traces, _ = run_block(fn.body, ASpec(atom=atom, scenario={"LEFT": True}, unroll=1))
-    ctx.paths += len(traces)
-    ctx.require(traces, f"{w[1]}: no path")
-    ctx.check(all(how == "raise:ValueError" for _, how, _ in traces), "R06.1", w, "unknown pseudo-headers rejected",
-              f"a {what} header block with additional pseudo-headers is accepted and the extra fields silently dropped", desc=f"{w[1]}: leftover pseudo-headers -> ValueError")
-
-
-def _call_site(ctx, rel, qual, parser, ret_origin, ctor, want, version):
+def _call_site(ctx, rel, qual, parser, roles, ctor, want, version):
     fn = ctx.func(rel, qual)
+    mod = ctx.model.module(rel)
     w = (rel, qual, fn)
-    asg = [n for n in ast.walk(fn) if isinstance(n, ast.Assign) and isinstance(n.value, ast.Call) and last_attr(n.value.func) == parser]
-    ctx.require(len(asg) == 1 and isinstance(asg[0].targets[0], ast.Tuple) and len(asg[0].targets[0].elts) == len(ret_origin) and all(isinstance(e, ast.Name) for e in asg[0].targets[0].elts),
-                f"{qual}: result of {parser} is not unpacked into {len(ret_origin)} names")
-    local_origin = {e.id: o for e, o in zip(asg[0].targets[0].elts, ret_origin)}
-    ctors = [n for n in ast.walk(fn) if isinstance(n, ast.Call) and attr_chain(n.func) == f"http.{ctor}"]
-    ctx.require(len(ctors) == 1 and not ctors[0].args, f"{qual}: expected one keyword-only http.{ctor}(...) call")
-    kw = {k.arg: k.value for k in ctors[0].keywords}
+    flow = _Flow(ctx.model, mod, fn, parser)
+    ctx.require(sum(1 for n in ast.walk(fn) if flow.is_parser_call(n)) == 1, f"{qual}: expected exactly one call of {parser.name}")
+    ctors = []
+    for n in ast.walk(fn):
+        if isinstance(n, ast.Call) and last_attr(n.func) == ctor:
+            r = ctx.model.resolve_name(mod, n.func)
+            if r is not None and r[0].rel == HTTP and isinstance(r[1], ast.ClassDef):
+                ctors.append(n)
+    ctx.require(len(ctors) == 1, f"{qual}: expected exactly one http.{ctor}(...) call, found {len(ctors)}")
+    init = ctx.model.method(HTTP, ctor, "__init__")
+    ctx.require(init is not None, f"http.{ctor}.__init__ vanished")
+    pnames = [a.arg for a in init[1].args.posonlyargs + init[1].args.args][1:]
+    ctx.require(not any(isinstance(a, ast.Starred) for a in ctors[0].args) and all(k.arg for k in ctors[0].keywords) and len(ctors[0].args) <= len(pnames),
+                f"{qual}: http.{ctor}(...) is called with * / ** arguments (shape not modelled)")
+    kw = dict(zip(pnames, ctors[0].args))
+    kw.update({k.arg: k.value for k in ctors[0].keywords})
+
+    def role_of(v):
+        o = flow.origin(v) if v is not None else None
+        if o is None or o[1] is None or o[1] >= len(roles):
+            return None
+        return roles[o[1]]
+
     for field, pseudo in want.items():
         v = kw.get(field)
-        got = local_origin.get(v.id) if isinstance(v, ast.Name) else None
+        got = role_of(v)
         ctx.check(got == pseudo, "R06.1", w, f"http.{ctor}({field}=...) origin", f"http.{ctor}'s `{field}` must be the value of the {pseudo.decode()} pseudo-header, but it is {norm(v) if v is not None else 'missing'} "
                   f"(origin {got!r})", desc=f"{qual}: {ctor}.{field} <- {pseudo.decode()}")
     hv = kw.get("http_version")
-    ctx.check(hv is not None and _bytes_const(hv) == version, "R06.1", w, f"http.{ctor}(http_version=...)", f"a message received over {version.decode()} must be recorded with that version (the down-conversion to HTTP/1 keys on it)",
+    ctx.check(hv is not None and flow.const(hv) in (version, version.decode()), "R06.1", w, f"http.{ctor}(http_version=...)", f"a message received over {version.decode()} must be recorded with that version (the down-conversion to HTTP/1 keys on it)",
               desc=f"{qual}: {ctor}.http_version = {version.decode()}")
     hd = kw.get("headers")
-    ctx.check(isinstance(hd, ast.Name) and str(local_origin.get(hd.id, "")).startswith("local:headers"), "R06.1", w, f"http.{ctor}(headers=...)", "the regular header fields returned by the parser must become the message's headers",
+    ctx.check(role_of(hd) == "headers", "R06.1", w, f"http.{ctor}(headers=...)", "the regular header fields returned by the parser must become the message's headers",
               desc=f"{qual}: {ctor}.headers <- parsed regular headers")
 
 
@@ -352,183 +858,201 @@ def _call_site(ctx, rel, qual, parser, ret_origin, ctor, want, version):
 # R06.2 / R06.4  down-conversion in _http1.py
 
 
+def _split_fields(fields):
+    host = [v for n, v in fields if n.lower() == b"host"]
+    cookie = [v for n, v in fields if n.lower() == b"cookie"]
+    other = [f for f in fields if f[0].lower() not in (b"host", b"cookie")]
+    return host, cookie, other
+
+
 def _downconvert(ctx, cls, msg, hdr_event, assemble):
     fn = ctx.func(H1, f"{cls}.send")
-    ev = params_of(fn)[0]
     w = (H1, f"{cls}.send", fn)
     is_req = msg == "request"
-
-    def val(expr, st, sp):
-        if isinstance(expr, ast.Call):
-            f = expr.func
-            if isinstance(f, ast.Attribute) and f.attr == "copy" and not expr.args:
-                return ("copy", sp.v(f.value, st))
-            if attr_chain(f) == f"http1.{assemble}" and len(expr.args) == 1:
-                return ("head", sp.v(expr.args[0], st))
-            if isinstance(f, ast.Attribute) and f.attr == "get_all" and expr.args and isinstance(expr.args[0], ast.Constant) and str(expr.args[0].value).lower() == "cookie":
-                return ("cookies", sp.v(f.value.value, st) if isinstance(f.value, ast.Attribute) else None)
-        if attr_chain(expr) == f"{ev}.{msg}":
-            return ("orig",)
-        return None
-
-    def msgvar(e, st, sp):
-        """abstract value of the object an attribute chain hangs off: request.headers -> value(request)"""
-        while isinstance(e, (ast.Attribute, ast.Subscript)):
-            e = e.value
-            if isinstance(e, ast.Name):
-                return sp.v(e, st)
-            if attr_chain(e) == f"{ev}.{msg}":
-                return ("orig",)
-        return None
-
-    def label(node, st, sp):
-        out = []
-        for n in eval_order(node):
-            if isinstance(n, ast.Call):
-                f = n.func
-                if isinstance(f, ast.Attribute) and f.attr == "insert" and isinstance(f.value, ast.Attribute) and f.value.attr == "headers" and len(n.args) == 3:
-                    out.append(("hdr_insert", msgvar(f, st, sp), norm(n.args[0]), norm(n.args[1]), attr_chain(n.args[2]) or norm(n.args[2])))
-                elif isinstance(f, ast.Attribute) and f.value is not None and isinstance(f.value, ast.Attribute) and f.value.attr == "headers" and f.attr in ("pop", "clear", "set_all", "add", "update", "setdefault", "__setitem__"):
-                    out.append(("hdr_other", msgvar(f, st, sp), norm(n)))
-            elif isinstance(n, ast.Yield) and isinstance(n.value, ast.Call) and last_attr(n.value.func) == "SendData":
-                a = n.value.args
-                out.append(("send", sp.v(a[1], st) if len(a) == 2 else ("?",)))
-            elif isinstance(n, ast.Yield):
-                out.append(("yield", norm(n.value)[:40] if n.value is not None else ""))
-        if isinstance(node, ast.Assign):
-            for t in node.targets:
-                if isinstance(t, ast.Attribute) and not attr_chain(t).startswith("self."):
-                    out.append(("set", msgvar(t, st, sp), t.attr, norm(node.value)))
-                elif isinstance(t, ast.Subscript) and isinstance(t.value, ast.Attribute) and t.value.attr == "headers":
-                    v = node.value
-                    joined = None
-                    if isinstance(v, ast.Call) and isinstance(v.func, ast.Attribute) and v.func.attr == "join" and isinstance(v.func.value, ast.Constant) and len(v.args) == 1:
-                        cv = sp.v(v.args[0], st)
-                        joined = (v.func.value.value, cv[0] if isinstance(cv, tuple) else None)
-                    out.append(("hdr_set", msgvar(t, st, sp), norm(t.slice), joined if joined else norm(v)))
-        elif isinstance(node, ast.Delete):
-            for t in node.targets:
-                if isinstance(t, ast.Subscript) and isinstance(t.value, ast.Attribute) and t.value.attr == "headers":
-                    out.append(("hdr_other", msgvar(t, st, sp), norm(node)))
-        return out
-
-    def atom(expr, st, sp):
-        io = isinstance_of(expr)
-        if io and isinstance(io[0], ast.Name) and io[0].id == ev and len(io[1]) == 1:
-            return ("is:" + io[1][0], True)
-        if isinstance(expr, ast.Attribute) and expr.attr in ("is_http2", "is_http3") and isinstance(expr.value, ast.Name) and sp.v(expr.value, st) in (("orig",),):
-            return ("IS2" if expr.attr == "is_http2" else "IS3", True)
-        if isinstance(expr, ast.Attribute) and expr.attr == "authority" and isinstance(expr.value, ast.Name) and isinstance(sp.v(expr.value, st), tuple) and sp.v(expr.value, st)[0] in ("copy", "orig"):
-            return ("AUTH", True)
-        cp = compare_pair(expr, (ast.In, ast.NotIn))
-        if cp and isinstance(cp[0], ast.Constant) and str(cp[0].value).lower() == "host" and isinstance(cp[1], ast.Attribute) and cp[1].attr == "headers":
-            return ("HOSTIN", isinstance(cp[2], ast.In))
-        cp = compare_pair(expr, (ast.Gt, ast.GtE))
-        if cp and isinstance(cp[0], ast.Call) and isinstance(cp[0].func, ast.Name) and cp[0].func.id == "len" and isinstance(sp.v(cp[0].args[0], st), tuple) and sp.v(cp[0].args[0], st)[0] == "cookies" \
-                and isinstance(cp[1], ast.Constant) and cp[1].value == (1 if isinstance(cp[2], ast.Gt) else 2):
-            return ("MULTICOOKIE", True)
-        return None
-
-    names = set()
-    for n in ast.walk(fn):
-        io = isinstance_of(n)
-        if io and isinstance(io[0], ast.Name) and io[0].id == ev:
-            names.update(io[1])
-    ctx.require(hdr_event in names, f"{cls}.send no longer handles {hdr_event}")
-    COPY = ("copy", ("orig",))
+    versions = H1_VERSIONS + MUX_VERSIONS
+    combos = [(v, host, auth, mc) for v in versions for host in (True, False) for auth in (True, False) for mc in (1, 2, 3)] if is_req else [(v, None, None, None) for v in versions]
+    failed = set()
     n_rows = 0
-    n_fail = 0
-    combos = [(h23, host, auth, mc) for h23 in (True, False) for host in (True, False) for auth in (True, False) for mc in (True, False)] if is_req else [(h23, None, None, None) for h23 in (True, False)]
-    for H23, HOSTIN, AUTH, MC in combos:
-        sc = {"is:" + k: (k == hdr_event) for k in names}
-        sc.update({"IS2": H23, "IS3": False, "SID": True})
+    for version, hostin, auth, mc in combos:
+        mux = version in MUX_VERSIONS
+        world = []
+        it = _Sem(ctx.model)
         if is_req:
-            sc.update({"HOSTIN": HOSTIN, "AUTH": AUTH, "MULTICOOKIE": MC})
-        init = {"self.stream_id": ("sid",)}
-        traces, _ = run_block(fn.body, ASpec(label=label, atom=atom, scenario=sc, val=val, unroll=1), {ev: ("param", ev)})
-        ctx.paths += len(traces)
+            fields = ([(b"Host", HOSTV)] if hostin else []) + [(b"X-Custom", b"V1"), (b"cookie", b"a=1"), (b"Accept", b"*/*")] + [(b"Cookie", b"b=2"), (b"cookie", b"c=3")][: mc - 1]
+            orig = _request(world, version, AUTHORITY if auth else b"", fields)
+            me = Rec(cls, _bases=("Http1Connection", "HttpConnection", "Layer"), _impl=(H1, cls), conn=Rec("Server", state=3), stream_id=None, request=None, response=None,
+                     request_done=False, response_done=False, context=_context(), debug=None)
+        else:
+            fields = [(b"Content-Type", b"text/x"), (b"Set-Cookie", b"a=1"), (b"set-cookie", b"b=2")]
+            orig = _response(world, version, fields)
+            me = Rec(cls, _bases=("Http1Connection", "HttpConnection", "Layer"), _impl=(H1, cls), conn=Rec("Client", state=3), stream_id=1, request=_request([], b"HTTP/1.1", b"", [(b"Host", HOSTV)]),
+                     response=None, request_done=True, response_done=False, context=_context(), debug=None)
+        before = _state(orig)
+        ev = Rec(hdr_event, _bases=("HttpEvent", "Event"), stream_id=1, end_stream=False, replay_flow=None, **{msg: orig})
         ctx.cells += 1
-        ctx.require(traces, f"{cls}.send: no path for {hdr_event}")
-        cons = f"{hdr_event} h2_or_h3={H23}" + (f" host_header={HOSTIN} authority={AUTH} several_cookies={MC}" if is_req else "")
-        for tr, how, _ in traces:
-            if how != "return":
-                continue
-            n_rows += 1
-            eff = [t for t in tr if t[0] in ("set", "hdr_insert", "hdr_set", "hdr_other", "send", "yield")]
-            sends = [t for t in eff if t[0] == "send"]
-            mods = [t for t in eff if t[0] in ("set", "hdr_insert", "hdr_set", "hdr_other") and not (t[0] == "set" and t[1] is None)]
-            # R06.4 exactly one head, of the message that was converted
-            target = COPY if (H23 and any(t[1] == COPY for t in mods)) else ("orig",)
-            if [t for t in eff if t[0] == "yield"] or len(sends) != 1 or sends[0][1] != ("head", target):
-                ctx.fail("R06.4", w, cons, f"exactly one SendData(http1.{assemble}(<{'converted copy' if H23 else 'message'}>)) must be emitted per {hdr_event}; saw {show(sends)} {show([t for t in eff if t[0] == 'yield'])}")
-                n_fail += 1
-            if not H23:
-                bad = [t for t in mods if t[1] in (("orig",), COPY)]
-                if bad:
-                    ctx.fail("R06.2", w, cons, f"an HTTP/1 {msg} must be forwarded unmodified, saw {show(bad)}")
-                    n_fail += 1
-                continue
-            if any(t[1] != COPY for t in mods):
-                ctx.fail("R06.2", w, cons, f"the conversion must work on a copy - the flow's {msg} (event.{msg}) must stay as received; saw {show([t for t in mods if t[1] != COPY])}")
-                n_fail += 1
-                continue
-            want = [("set", COPY, "http_version", "'HTTP/1.1'")]
+        n_rows += 1
+        cons = f"{hdr_event} {version.decode()}" + (f" host_header={hostin} authority={auth} cookie_headers={mc}" if is_req else "")
+
+        def fail(rule, why):
+            failed.add(rule)
+            ctx.fail(rule, w, cons, why)
+
+        try:
+            res = it.method(me, "send", ev)
+        except Raised as r:
+            fail("R06.4", f"no HTTP/1 head is emitted: send() raises {r.name}")
+            continue
+        cmds = list(res.yields) if isinstance(res, _Done) else None
+        ctx.require(cmds is not None, f"{cls}.send is not a command generator any more")
+        sends = [c for c in cmds if isinstance(c, Rec) and c.isa("SendData")]
+        other = [c for c in cmds if not (isinstance(c, Rec) and (c.isa("SendData") or c.isa("Log")))]
+        heads = [c.data for c in sends if isinstance(getattr(c, "data", None), _Head)]
+        # R06.4 exactly one head, of the message that was converted
+        if other or len(sends) != 1 or len(heads) != 1:
+            fail("R06.4", f"exactly one SendData(http1.{assemble}(<{'converted copy' if mux else 'message'}>)) must be emitted per {hdr_event}; saw {len(sends)} SendData ({len(heads)} of them a message head) and {[c._cls if isinstance(c, Rec) else c for c in other]}")
+            continue
+        head = heads[0]
+        if getattr(sends[0], "connection", me.conn) is not me.conn:
+            fail("R06.4", "the head is not sent to this connection's peer")
+        changed = [m for m in world if m is not orig and _state(m) != before]
+        if head.msg is orig and changed:
+            fail("R06.4", f"the head of the unconverted {msg} (event.{msg}) is sent although a converted copy was made")
+            continue
+        # R06.2 the flow's message stays as received
+        if _state(orig) != before:
+            now = dict(_state(orig))
+            diff = sorted(k for k, v in before if now.get(k) != v)
+            fail("R06.2", f"the conversion must work on a copy - the flow's {msg} (event.{msg}) must stay as received; changed: {diff}")
+            continue
+        sent = dict(head.state)
+        was = dict(before)
+        if not mux:
+            if head.state != before:
+                fail("R06.2", f"an HTTP/1 {msg} must be forwarded unmodified, changed: {sorted(k for k in was if sent.get(k) != was[k])}")
+            continue
+        want = dict(was)
+        want["http_version"] = b"HTTP/1.1"
+        probs = []
+        if is_req:
+            want["authority"] = b""
+        else:
+            sent["reason"] = want["reason"] = None  # a made-up reason phrase is allowed (an empty one is valid HTTP/1 too), it is not part of the message semantics
+        for k in sorted(want):
+            if k != "headers" and sent.get(k) != want[k]:
+                probs.append(f"{k} is {sent.get(k)!r}, expected {want[k]!r}")
+        got_fields = list(sent["headers"][1]) if isinstance(sent.get("headers"), tuple) else None
+        if got_fields is None:
+            probs.append("the headers are no Headers object any more")
+        else:
+            ghost, gcookie, gother = _split_fields(got_fields)
+            host, cookie, other_f = _split_fields(fields)
+            if gother != other_f:
+                probs.append(f"header fields other than Host / Cookie must be kept complete and in order: expected {_fmt(other_f)}, saw {_fmt(gother)}")
             if is_req:
-                if not HOSTIN and AUTH:
-                    want.append(("hdr_insert", COPY, "0", "'Host'", "request.authority"))
-                want.append(("set", COPY, "authority", "''"))
-                if MC:
-                    want.append(("hdr_set", COPY, "'Cookie'", ("; ", "cookies")))
-            else:
-                # a made-up reason phrase is allowed (an empty one is valid HTTP/1 too), it is not part of the message semantics
-                mods = [t for t in mods if not (t[0] == "set" and t[2] == "reason")]
-            got = [(t[0], t[1]) + tuple(t[2:]) for t in mods]
-            got_n = [g if g[0] != "hdr_insert" else g[:4] + (g[4].split(".")[-1],) for g in got]
-            want_n = [x if x[0] != "hdr_insert" else x[:4] + (x[4].split(".")[-1],) for x in want]
-            if sorted(map(str, got_n)) != sorted(map(str, want_n)) or (is_req and not HOSTIN and AUTH and got_n.index(want_n[1]) > got_n.index(want_n[2])):
-                ctx.fail("R06.2", w, cons, f"conversion of an h2/h3 {msg} to HTTP/1 must perform exactly {show(want_n)} (Host from authority before authority is cleared), saw {show(got_n)}")
-                n_fail += 1
-    if not any(f.rule == "R06.2" and f.func == f"{cls}.send" for f in ctx.findings):
-        ctx.ok("R06.2", f"{cls}.send({hdr_event}): {len(combos)} scenario rows, {n_rows} paths convert on a copy exactly as specified")
-    if not any(f.rule == "R06.4" and f.func == f"{cls}.send" for f in ctx.findings):
-        ctx.ok("R06.4", f"{cls}.send({hdr_event}): exactly one SendData(http1.{assemble}(...)) on {n_rows} paths")
+                whost = host if host else ([AUTHORITY] if auth else [])
+                if ghost != whost:
+                    probs.append(f"Host must be {[_nat(x) for x in whost]} (inserted from the authority iff there is no Host header and the authority is non-empty, before the authority is cleared), saw {[_nat(x) for x in ghost]}")
+                wcookie = [b"; ".join(cookie)] if len(cookie) > 1 else cookie
+                if gcookie != wcookie:
+                    probs.append(f"several Cookie headers must be joined with '; ' into one (HTTP/1 allows only one): expected {[_nat(x) for x in wcookie]}, saw {[_nat(x) for x in gcookie]}")
+            elif (ghost, gcookie) != (host, cookie):
+                probs.append("Host / Cookie fields of a response must stay as they are")
+        if probs:
+            fail("R06.2", f"conversion of an h2/h3 {msg} to HTTP/1: " + "; ".join(probs))
+    if "R06.2" not in failed:
+        ctx.ok("R06.2", f"{cls}.send({hdr_event}): {n_rows} scenario rows: h2/h3 messages are converted on a copy exactly as specified, HTTP/1 messages pass unmodified")
+    if "R06.4" not in failed:
+        ctx.ok("R06.4", f"{cls}.send({hdr_event}): exactly one SendData(http1.{assemble}(...)) in {n_rows} scenario rows")
 
 
 # ---------------------------------------------------------------------------------------------------
 # R06.3 option dataflow
 
+OPT = "validate_inbound_headers"
+
 
 def _validation_option(ctx):
     fn = ctx.func(H2, "Http2Connection.__init__")
     w = (H2, "Http2Connection.__init__", fn)
+    ps = params_of(fn)
+    ctx.require(len(ps) >= 1, "Http2Connection.__init__ signature changed")
+    ctxparam = ps[0]
+
+    def canon(e, st, sp):
+        """dotted text of an attribute chain with local aliases expanded; the context parameter and self.context (Layer.__init__ stores it) are both 'CTX'."""
+        parts = []
+        while isinstance(e, ast.Attribute):
+            parts.append(e.attr)
+            e = e.value
+        if not isinstance(e, ast.Name):
+            return None
+        root = e.id
+        v = sp.v(e, st) if root != "self" else None
+        if isinstance(v, tuple) and len(v) == 2 and v[0] in ("r", "param", "canon"):
+            root = v[1]
+        text = ".".join([root] + parts[::-1])
+        for pre in ("self.context", ctxparam):
+            if text == pre or text.startswith(pre + "."):
+                text = "CTX" + text[len(pre):]
+                break
+        return text
+
+    def val(expr, st, sp):
+        if isinstance(expr, ast.Attribute):
+            c = canon(expr, st, sp)
+            return ("canon", c) if c else None
+        return None
 
     def label(node, st, sp):
         out = []
+        tgts = []
         if isinstance(node, ast.Assign):
-            for t in node.targets:
-                if attr_chain(t) == "self.h2_conf.validate_inbound_headers":
-                    out.append(("opt", attr_chain(node.value) or norm(node.value)))
-                if attr_chain(t) == "self.h2_conn":
-                    out.append(("conn", norm(node.value)))
+            tgts = [(t, node.value) for t in node.targets]
+        elif isinstance(node, ast.AnnAssign) and node.value is not None:
+            tgts = [(node.target, node.value)]
+        for t, v in tgts:
+            c = canon(t, st, sp) if isinstance(t, ast.Attribute) else None
+            if c == f"self.h2_conf.{OPT}":
+                out.append(("opt", canon(v, st, sp) or norm(v)))
+            elif c == "self.h2_conn":
+                args = [canon(a, st, sp) for a in v.args] + [canon(k.value, st, sp) for k in v.keywords] if isinstance(v, ast.Call) else []
+                out.append(("conn", "from self.h2_conf" if "self.h2_conf" in args else norm(v)))
+        for n in ast.walk(node):
+            if isinstance(n, ast.Call) and isinstance(n.func, ast.Name) and n.func.id == "setattr" and len(n.args) == 3 and isinstance(n.args[1], ast.Constant) and n.args[1].value == OPT:
+                out.append(("opt", canon(n.args[2], st, sp) or norm(n.args[2])))
         return out
 
-    traces, _ = run_block(fn.body, ASpec(label=label, unroll=1))
+    traces, _ = run_block(fn.body, ASpec(label=label, val=val, unroll=1), {p: ("param", p) for p in ps})
     ctx.paths += len(traces)
     ctx.require(traces, "Http2Connection.__init__: no path")
     bad = None
     for tr, how, _ in traces:
+        if how != "return":
+            continue
         toks = [t for t in tr if t[0] in ("opt", "conn")]
-        if toks != [("opt", "self.context.options.validate_inbound_headers"), ("conn", "BufferedH2Connection(self.h2_conf)")]:
+        conns = [i for i, t in enumerate(toks) if t[0] == "conn"]
+        opts = [i for i, t in enumerate(toks) if t[0] == "opt"]
+        if len(conns) != 1 or toks[conns[0]][1] != "from self.h2_conf" or not opts or min(opts) > conns[0] or any(toks[i][1] != f"CTX.options.{OPT}" for i in opts):
             bad = toks
     ctx.check(bad is None, "R06.3", w, "h2_conf.validate_inbound_headers <- option", "hyper-h2's inbound header validation must follow context.options.validate_inbound_headers (set before the h2 connection is "
-              f"created from self.h2_conf); saw {show(bad) if bad else ''}", desc="Http2Connection.__init__: validate_inbound_headers <- context.options.validate_inbound_headers, then BufferedH2Connection(self.h2_conf)")
-    dflt = ctx.model.cls(H2, "Http2Connection")
-    pinned = [k.arg for n in ast.walk(dflt) if isinstance(n, ast.Call) and isinstance(n.func, ast.Name) and n.func.id == "dict" for k in n.keywords if k.arg == "validate_inbound_headers"]
-    for sub in ("Http2Server", "Http2Client"):
-        c = ctx.model.cls(H2, sub)
-        pinned += [k.arg for n in ast.walk(c) if isinstance(n, ast.Call) and last_attr(n.func) == "H2Configuration" for k in n.keywords if k.arg == "validate_inbound_headers"]
-    ctx.check(not pinned, "R06.3", (H2, "Http2Connection", dflt), "validate_inbound_headers not pinned", "validate_inbound_headers is pinned to a constant in the H2Configuration defaults",
-              desc="H2Configuration defaults do not pin validate_inbound_headers")
+              f"created from self.h2_conf); saw {show(bad) if bad else ''}", desc="Http2Connection.__init__: validate_inbound_headers <- context.options.validate_inbound_headers, then the h2 connection is created from self.h2_conf")
+    # nothing else may decide the setting: every other write / constructor keyword in _http2.py carries the option's value too
+    # (a class-level default that __init__ overwrites is harmless: the h2 connection is created after the write checked above)
+    mod = ctx.model.module(H2)
+    stray = []
+    for n in ast.walk(mod.tree):
+        if isinstance(n, (ast.Assign, ast.AnnAssign, ast.AugAssign)) and getattr(n, "value", None) is not None:
+            for t in (n.targets if isinstance(n, ast.Assign) else [n.target]):
+                if isinstance(t, ast.Attribute) and t.attr == OPT:
+                    f = t
+                    while f is not None and not isinstance(f, (ast.FunctionDef, ast.AsyncFunctionDef)):
+                        f = getattr(f, "_parent", None)
+                    if f is fn:
+                        continue
+                    if not (attr_chain(n.value) or "").endswith(f"options.{OPT}"):
+                        stray.append(norm(n))
+    ctx.check(not stray, "R06.3", (H2, "Http2Connection", ctx.model.cls(H2, "Http2Connection")), "validate_inbound_headers not pinned", f"validate_inbound_headers is set to something else than the option: {stray}",
+              desc="no other write to validate_inbound_headers in _http2.py")
 
 
 def check(ctx):
@@ -536,17 +1060,20 @@ def check(ctx):
     ctx.rule("R06.2", "h2/h3 -> HTTP/1 conversion: copy, HTTP/1.1, Host from authority iff missing, authority cleared, Cookie joined with '; '; responses: copy + HTTP/1.1")
     ctx.rule("R06.3", "inbound header validation follows the option; HTTP/1 blocks are normalised for HTTP/2; Host -> :authority only when authority is empty")
     ctx.rule("R06.4", "exactly one HTTP/1 head (one SendData of assemble_*_head) per RequestHeaders / ResponseHeaders")
-    ctx.trust("hyper-h2 / aioquic header validation, http1.assemble_request_head / assemble_response_head, h2.utilities.normalize_outbound_headers")
+    ctx.trust("hyper-h2 / aioquic header validation, http1.assemble_request_head / assemble_response_head, h2.utilities.normalize_outbound_headers (modelled: lower-cases names, drops connection-specific fields)")
+    ctx.trust("model of mitmproxy.http.Headers (case-insensitive multi-dict over (bytes, bytes) fields) and Message.copy() (independent deep copy); http.Request / http.Response properties are interpreted from their source")
+    ctx.bounds.append("converters interpreted on a finite message domain: versions HTTP/1.0 1.1 2.0 3 x authority set/empty x Host present/absent x one/several Cookie headers x normalize_outbound_headers")
     _format_request(ctx)
     _format_response(ctx)
     _parse_side(ctx)
     _downconvert(ctx, "Http1Client", "request", "RequestHeaders", "assemble_request_head")
     _downconvert(ctx, "Http1Server", "response", "ResponseHeaders", "assemble_response_head")
     _validation_option(ctx)
-    ctx.expect_instances("R06.1", 28)
-    ctx.expect_instances("R06.2", 2)
-    ctx.expect_instances("R06.3", 5)
-    ctx.expect_instances("R06.4", 2)
+    if not ctx.findings:
+        ctx.expect_instances("R06.1", 28)
+        ctx.expect_instances("R06.2", 2)
+        ctx.expect_instances("R06.3", 4)
+        ctx.expect_instances("R06.4", 2)
 
 
 MUTANTS = [
@@ -554,19 +1081,27 @@ MUTANTS = [
     Mutant("format-scheme-from-url", H2, "(b\":scheme\", event.request.data.scheme),", "(b\":scheme\", event.request.data.method),", "R06.1"),
     Mutant("format-authority-always", H2, "    if event.request.authority:\n        pseudo_headers.append((b\":authority\", event.request.data.authority))\n", "    pseudo_headers.append((b\":authority\", event.request.data.authority))\n", "R06.1"),
     Mutant("format-pseudo-last", H2, "    return pseudo_headers + hdrs", "    return hdrs + pseudo_headers", "R06.1"),
+    Mutant("format-h2-fields-dropped", H2, "        hdrs = list(event.request.headers.fields)\n", "        hdrs = list(event.request.headers.fields)[1:]\n", "R06.1"),
     Mutant("split-accepts-duplicates", H2, "            if header in pseudo_headers:\n                raise ValueError(f\"Duplicate HTTP/2 pseudo header: {header!r}\")\n", "", "R06.1"),
     Mutant("parse-ignores-leftovers", H2, "    if pseudo_headers:\n        raise ValueError(f\"Unknown pseudo headers: {pseudo_headers}\")\n\n    if authority:", "    if authority:", "R06.1"),
+    Mutant("parse-response-ignores-leftovers", H2, "    if pseudo_headers:\n        raise ValueError(f\"Unknown pseudo headers: {pseudo_headers}\")\n\n    return status_code, headers", "    return status_code, headers", "R06.1"),
     Mutant("parse-path-optional", H2, "path: bytes = pseudo_headers.pop(b\":path\")", "path: bytes = pseudo_headers.pop(b\":path\", b\"/\")", "R06.1"),
+    Mutant("split-loses-first-regular-field", H2, "    headers = http.Headers(h2_headers[i:])", "    headers = http.Headers(h2_headers[i + 1 :])", "R06.1"),
     Mutant("h2-site-swaps-scheme-method", H2, "                method=method,\n                scheme=scheme,\n                authority=authority,\n                path=path,\n                http_version=b\"HTTP/2.0\",",
            "                method=scheme,\n                scheme=method,\n                authority=authority,\n                path=path,\n                http_version=b\"HTTP/2.0\",", "R06.1"),
     Mutant("h3-site-unpack-order", H3, "            method,\n            scheme,\n            authority,\n            path,\n            headers,\n        ) = parse_h2_request_headers(event.headers)",
            "            method,\n            scheme,\n            path,\n            authority,\n            headers,\n        ) = parse_h2_request_headers(event.headers)", "R06.1"),
+    Mutant("h3-site-wrong-version", H3, "            path=path,\n            http_version=b\"HTTP/3\",", "            path=path,\n            http_version=b\"HTTP/2.0\",", "R06.1"),
     Mutant("response-status-from-reason", H2, "(b\":status\", b\"%d\" % event.response.status_code),", "(b\":status\", event.response.data.reason),", "R06.1"),
+    Mutant("response-fields-dropped", H2, "        (b\":status\", b\"%d\" % event.response.status_code),\n        *event.response.headers.fields,\n", "        (b\":status\", b\"%d\" % event.response.status_code),\n", "R06.1"),
     # R06.2
     Mutant("downconvert-mutates-flow-request", H1, "                request = (\n                    request.copy()\n                )  # (we could probably be a bit more efficient here.)\n", "", "R06.2"),
     Mutant("downconvert-host-overrides", H1, "                if \"Host\" not in request.headers and request.authority:", "                if request.authority:", "R06.2"),
     Mutant("downconvert-cookie-comma", H1, "request.headers[\"Cookie\"] = \"; \".join(cookie_headers)", "request.headers[\"Cookie\"] = \", \".join(cookie_headers)", "R06.2"),
+    Mutant("downconvert-cookies-not-joined", H1, "                if len(cookie_headers) > 1:", "                if len(cookie_headers) > 2:", "R06.2"),
     Mutant("downconvert-keeps-authority", H1, "                request.authority = \"\"\n", "", "R06.2"),
+    Mutant("downconvert-host-after-clearing", H1, "                if \"Host\" not in request.headers and request.authority:\n                    request.headers.insert(0, \"Host\", request.authority)\n                request.authority = \"\"\n",
+           "                authority, request.authority = request.authority, \"\"\n                if \"Host\" not in request.headers and request.authority:\n                    request.headers.insert(0, \"Host\", authority)\n", "R06.2"),
     Mutant("downconvert-keeps-h2-version", H1, "                request.http_version = \"HTTP/1.1\"\n", "", "R06.2"),
     Mutant("response-downconvert-mutates-flow", H1, "                response = response.copy()\n", "", "R06.2"),
     Mutant("response-keeps-h2-version", H1, "                response.http_version = \"HTTP/1.1\"\n", "", "R06.2"),
@@ -574,11 +1109,16 @@ MUTANTS = [
     Mutant("h2-validation-always-off", H2, "        self.h2_conf.validate_inbound_headers = (\n            self.context.options.validate_inbound_headers\n        )\n", "        self.h2_conf.validate_inbound_headers = False\n", "R06.3"),
     Mutant("h2-validation-set-too-late", H2, "        self.h2_conf.validate_inbound_headers = (\n            self.context.options.validate_inbound_headers\n        )\n        self.h2_conn = BufferedH2Connection(self.h2_conf)\n",
            "        self.h2_conn = BufferedH2Connection(self.h2_conf)\n        self.h2_conf.validate_inbound_headers = (\n            self.context.options.validate_inbound_headers\n        )\n", "R06.3"),
+    Mutant("h2-validation-overridden-for-clients", H2, "    def __init__(self, context: Context):\n        super().__init__(context, context.client)\n", "    def __init__(self, context: Context):\n        super().__init__(context, context.client)\n        self.h2_conf.validate_inbound_headers = False\n", "R06.3"),
     Mutant("h1-request-not-normalised", H2, "        hdrs = normalize_h1_headers(list(headers.fields), True)", "        hdrs = list(headers.fields)", "R06.3"),
+    Mutant("h1-request-normalised-as-server", H2, "        hdrs = normalize_h1_headers(list(headers.fields), True)", "        hdrs = normalize_h1_headers(list(headers.fields), False)", "R06.3"),
+    Mutant("h1-response-not-normalised", H2, "        headers = normalize_h1_headers(headers, False)\n", "        pass\n", "R06.3"),
+    Mutant("h2-response-normalised-as-h1", H2, "    if event.response.is_http2 or event.response.is_http3:\n        if context.options.normalize_outbound_headers:\n            yield from normalize_h2_headers(headers)\n    else:\n        headers = normalize_h1_headers(headers, False)\n",
+           "    if event.response.is_http2:\n        if context.options.normalize_outbound_headers:\n            yield from normalize_h2_headers(headers)\n    else:\n        headers = normalize_h1_headers(headers, False)\n", "R06.3"),
     Mutant("host-overrides-authority", H2, "        if not event.request.authority and \"host\" in headers:", "        if \"host\" in headers:", "R06.3"),
     Mutant("host-popped-from-flow", H2, "            headers = headers.copy()\n            pseudo_headers.append", "            pseudo_headers.append", "R06.3"),
     # R06.4
     Mutant("two-heads", H1, "            raw = http1.assemble_request_head(request)\n            yield commands.SendData(self.conn, raw)\n", "            raw = http1.assemble_request_head(request)\n            yield commands.SendData(self.conn, raw)\n            if request is not event.request:\n                yield commands.SendData(self.conn, raw)\n", "R06.4"),
     Mutant("head-of-unconverted-request", H1, "            raw = http1.assemble_request_head(request)\n", "            raw = http1.assemble_request_head(event.request)\n", "R06.4"),
-    Mutant("response-head-conditional", H1, "            raw = http1.assemble_response_head(response)\n            yield commands.SendData(self.conn, raw)\n", "            raw = http1.assemble_response_head(response)\n            if raw:\n                yield commands.SendData(self.conn, raw)\n", "R06.4"),
+    Mutant("response-head-only-for-h1", H1, "            raw = http1.assemble_response_head(response)\n            yield commands.SendData(self.conn, raw)\n", "            raw = http1.assemble_response_head(response)\n            if response is event.response:\n                yield commands.SendData(self.conn, raw)\n", "R06.4"),
 ]
